@@ -49,10 +49,27 @@ def replay_bin():
     return os.path.join(build()[1], "replay")
 
 
+_scratch = []
+
+
 def scratch(name):
     d = os.path.join(BUILD, "work", name + "." + str(os.getpid()))
     os.makedirs(d, exist_ok=True)
+    if d not in _scratch:
+        _scratch.append(d)
     return d
+
+
+def _cleanup():
+    import shutil
+    if os.environ.get("VERIF_KEEP_WORK"):
+        return
+    for d in _scratch:
+        shutil.rmtree(d, ignore_errors=True)
+
+
+import atexit
+atexit.register(_cleanup)
 
 
 def stable_hash(obj):
